@@ -24,6 +24,18 @@ pub const TARGET_PAYLOAD: u8 = 255;
 thread_local! {
     static TID: Cell<usize> = const { Cell::new(usize::MAX) };
     static PANIC_MSG: Cell<Option<String>> = const { Cell::new(None) };
+    /// the thread is inside a handle drop that the harness performs by unwinding on purpose
+    static DELIBERATE_UNWIND: Cell<bool> = const { Cell::new(false) };
+}
+
+/// Marks the calling thread as (not) being inside a drop-by-unwinding made on purpose.
+pub fn set_deliberate_unwind(on: bool) {
+    DELIBERATE_UNWIND.with(|d| d.set(on));
+}
+
+/// Is the thread unwinding from a panic that is not the harness's own deliberate one?
+pub fn genuinely_panicking() -> bool {
+    std::thread::panicking() && !DELIBERATE_UNWIND.with(|d| d.get())
 }
 
 /// Operations that run outside the scheduler's control (destructors during tear-down, the
@@ -690,7 +702,7 @@ impl Sched {
             pass_through_op();
             return None;
         }
-        if std::thread::panicking() {
+        if genuinely_panicking() {
             // a genuine panic is unwinding through the crate's destructors: tear the execution
             // down now and let the destructors run on the real primitives
             if st.abort.is_none() {
